@@ -1,5 +1,6 @@
 import Driver.Proto
 import Driver.Kw
+import Driver.Lists
 import Driver.Pratt
 import Driver.Tok
 /-! Model driver: one request per line `op \t arg …`, one answer per line. -/
@@ -8,6 +9,7 @@ namespace Driver
 def dispatch (line : String) : String :=
   match line.splitOn "\t" with
   | "kw" :: args => handleKw args
+  | "lists" :: args => handleLists args
   | "prec" :: args => Pr.handlePrec args
   | "chains" :: args => Pr.handleChains args
   | "tok" :: args => handleTok args
